@@ -95,7 +95,10 @@ func TestC10SyncReplies(t *testing.T) {
 		var puts []put
 		for i, n := 0, rapid.IntRange(0, 12).Draw(t, "reports"); i < n; i++ {
 			idx := rapid.SampledFrom([]int{0, 1, 7, 8, 2015, 2016, 4030, 4031, rapid.IntRange(0, 4031).Draw(t, "idx")}).Draw(t, "idxPick")
-			puts = append(puts, put{idx, 100 + uint64(i), rapid.IntRange(0, 4).Draw(t, "equivocate") == 0})
+			// values: ordinary, the client's sentinels 2 and 3, negative readings
+			// (two's complement, top bit set), the largest positive value, anything
+			power := rapid.SampledFrom([]uint64{100 + uint64(i), 100 + uint64(i), 2, 3, 1 << 63, math.MaxUint64, math.MaxUint64 - 4999, math.MaxInt64, rapid.Uint64Range(2, math.MaxUint64).Draw(t, "anyPower")}).Draw(t, "power")
+			puts = append(puts, put{idx, power, rapid.IntRange(0, 4).Draw(t, "equivocate") == 0})
 		}
 		edge := false
 		for _, p := range puts {
